@@ -18,7 +18,7 @@ RUNS = {"quick": 600, "thorough": 20000}
 JOB_TIMEOUT = 600.0
 COMPONENTS = {
     "real": ["MazeDataset.generate / from_config", "_maze_gen_init_worker", "_generate_maze_helper", "all generators", "generate_random_path", "find_shortest_path", "SolvedMaze constructor", "pickle round trips of initargs/tasks/results"],
-    "stub": ["multiprocessing.Pool / current_process (SimPool: worker contexts with their own random / numpy / module-global state)"],
+    "stub": ["multiprocessing.Pool / current_process (SimPool: worker contexts with their own random / numpy / module-global state); validated against real multiprocessing.Pool runs in the same batch (probe_real_pool_matches_simpool_streams)"],
 }
 RULE = (
     "one run = a parent history (0-2 earlier generate calls, serial or pooled) followed by the judged generate/from_config call under a "
@@ -67,6 +67,13 @@ def gen_specs(rng: random.Random, tier: str, n: int) -> list[dict]:
                 },
             }
         )
+    for _ in range(6 if tier == "quick" else 40):
+        gen = rng.choice(["gen_wilson", "gen_percolation"])
+        cfg = {"name": "fid", "grid_n": rng.randint(3, 6), "n_mazes": rng.randint(4, 14), "maze_ctor": gen, "maze_ctor_kwargs": ({"p": 1.0} if gen == "gen_percolation" else {}), "endpoint_kwargs": {}, "seed": rng.randrange(10**6), "applied_filters": []}
+        pk = {"processes": rng.randint(1, 3)}
+        if rng.random() < 0.3:
+            pk["maxtasksperchild"] = rng.randint(2, 4)
+        specs.append({"seed": rng.getrandbits(48), "fidelity": {"cfg": cfg, "pool_kwargs": pk}})
     return specs
 
 
@@ -124,7 +131,55 @@ def _call(spec_cfg, parallel, pool_kwargs, via):
     return MazeDataset.generate(cfg, gen_parallel=parallel, pool_kwargs=dict(pool_kwargs))
 
 
+def st_real_pool(cfgspec, pool_kwargs):
+    "the real multiprocessing.Pool (no seam): used only to validate the SimPool stub"
+    from maze_dataset import MazeDataset
+
+    ds = MazeDataset.generate(_ds.make_cfg(cfgspec), gen_parallel=True, pool_kwargs=dict(pool_kwargs))
+    return [_ds.maze_record(m) for m in ds.mazes]
+
+
+def st_sim_stream(cfgspec, identity, n):
+    "what the simulated worker with this identity produces when it executes n tasks in a row"
+    from maze_dataset import MazeDataset
+
+    world = spool.PoolWorld(0, "fork", 1, identity, assign_policy="one-worker")
+    with spool.Installed(world):
+        ds = MazeDataset.generate(_ds.make_cfg(dict(cfgspec, n_mazes=n)), gen_parallel=True, pool_kwargs={"processes": 1})
+    return [_ds.maze_record(m) for m in ds.mazes]
+
+
+def run_fidelity(spec, ctx):
+    """Stub validation (DESIGN S-POOL): for generators that use only NumPy randomness a real pool's output is an
+    interleaving of per-worker streams determined by cfg.seed + identity; every real maze must appear, in order, in
+    the SimPool stream of some worker identity. A mismatch is a harness failure (the stub is unfaithful), not a verdict."""
+    f = spec["fidelity"]
+    cfg, pk = f["cfg"], f["pool_kwargs"]
+    real = core.stage(st_real_pool, cfg, pk, timeout=300.0)
+    n = cfg["n_mazes"]
+    procs = pk.get("processes", 2)
+    m = pk.get("maxtasksperchild")
+    n_ident = procs if m is None else procs + (n + m - 1) // m + procs
+    per = n if m is None else m
+    streams = {k: core.stage(st_sim_stream, cfg, k, per) for k in range(1, n_ident + 1)}
+    ptr = {k: 0 for k in streams}
+    used = set()
+    for i, rec in enumerate(real):
+        for k in sorted(streams):
+            if ptr[k] < len(streams[k]) and streams[k][ptr[k]] == rec:
+                ptr[k] += 1
+                used.add(k)
+                break
+        else:
+            return {"__harness__": "simpool-fidelity", "msg": f"real pool item {i} is not the next item of any simulated worker stream (identities 1..{n_ident}); the SimPool stub does not model the real pool for {cfg['maze_ctor']} with {pk}"}
+    log = core.EventLog()
+    log.add("fidelity", cfg, pk, sorted(used))
+    return core.ok(log, stats={"probe_real_pool_matches_simpool_streams": 1, "real_pool_workers_seen": len(used)}, nontrivial=log.digest() if len(used) >= 1 else None)
+
+
 def run(spec: dict, ctx) -> dict:
+    if "fidelity" in spec:
+        return run_fidelity(spec, ctx)
     log = core.EventLog()
     stats: dict = {}
     w = spec["world"]
@@ -179,6 +234,8 @@ def run(spec: dict, ctx) -> dict:
 
 
 def shrink(spec: dict, result: dict):
+    if "fidelity" in spec:
+        return
     if spec["history"]:
         yield dict(spec, history=[])
         for i in range(len(spec["history"])):
@@ -207,4 +264,6 @@ def shrink(spec: dict, result: dict):
 
 
 def sample_of(spec, result):
+    if "fidelity" in spec:
+        return {"fidelity": spec["fidelity"], "digest": result.get("digest")}
     return {"cfg": spec["cfg"], "parallel": spec["parallel"], "pool_kwargs": spec["pool_kwargs"], "world": spec["world"], "history_len": len(spec["history"]), "digest": result.get("digest")}
